@@ -504,6 +504,39 @@ def check_variants(ctx):
                          "embedding": emb is not None,
                          "err": f"{type(e).__name__}: {e}"},
                         {"kind": "exception"})
+            # threshold in units of the standard deviation of the SERIES,
+            # with a delay embedding (the embedded array repeats the middle
+            # samples: its standard deviation is a different number)
+            ns = rng.randint(12, 30)
+            xs1 = np.cumsum([rng.choice([-1.0, 0.5, 1.0, 2.0])
+                             for _ in range(ns)])
+            ed, et = rng.choice([2, 3]), rng.choice([1, 2, 3])
+            ts = rng.choice([0.25, 0.5, 1.0])
+            try:
+                rs = RecurrencePlot(xs1, metric=m, threshold_std=ts, dim=ed,
+                                    tau=et, silence_level=3)
+                emb = np.asarray(rs.embedding, float)
+                Dd = ref_dist(emb, emb, m)
+                thr_s = ts * float(np.asarray(rs.time_series,
+                                              float).std())
+                if np.all(np.abs(Dd - thr_s) > 1e-5 * (1 + thr_s)):
+                    wantR = (Dd < thr_s).astype(int)
+                    gotR = np.asarray(rs.recurrence_matrix()).astype(int)
+                    if not np.array_equal(gotR, wantR):
+                        ctx.violation(
+                            "RecurrencePlot(threshold_std, dim, tau)",
+                            "R is not (distance < threshold_std * standard "
+                            "deviation of the series)",
+                            {"x": xs1.tolist(), "metric": m, "dim": ed,
+                             "tau": et, "threshold_std": ts},
+                            {"embedding": True})
+                else:
+                    ctx.stat("threshold_std: distance on the threshold")
+            except Exception as e:
+                ctx.violation("RecurrencePlot(threshold_std, dim, tau)",
+                              "raises", {"x": xs1.tolist(), "err":
+                                         f"{type(e).__name__}: {e}"},
+                              {"kind": "exception"})
             # recurrence network of a series with missing samples: R of the
             # plot, the states holding a missing value removed, no self-loops
             xn = x.copy()
